@@ -42,7 +42,10 @@ LEVEL_NOTE = ("Modelled: weights (Soft64), binary search, add.at, count assertio
               "arrays; a disagreement is reported and the seed-only correspondence skipped, never a verdict), numpy's Poisson samplers "
               "(multiplication method and PTRS with its own log-gamma, Float layer: validated against RandomState.poisson every run), "
               "libm exp / log / sqrt, the test statistics (C05/C16; they enter through the "
-              "quantile and through the harness-level reference statistic of the public-path oracle).")
+              "quantile and through the harness-level reference statistic of the public-path oracle). Outside the property (derived-method "
+              "hook, coordinator's ruling of round 7): WHICH derived public method of the forecast the tests call internally "
+              "(spatial_counts() / magnitude_counts() vs summing forecast.data) - no forecast subclass overriding a derived method is "
+              "generated, seeded C06_14 stays unreported; user catalog subclasses override only the basic data accessors.")
 DESIGN_REF = "DESIGN.md §4 C06"
 TECHNIQUE = "Lean 4 model (Soft64 binary64 on Rat + exact lists) with kernel-checked theorems; differential correspondence + exact oracle"
 
@@ -98,7 +101,12 @@ RULE = ("rate vectors of 1..40 bins (1-D and 2-D) with leading / trailing / inte
         "rates, rates beyond 2^53, 129 / 257 bins for every driver in every run and 127..257 bins / events at random, public keyword "
         "arguments handed over positionally (order of the current signature), observed catalog as UCERF3Catalog (big-endian rows), "
         "array-level functions with their default verbose, caller-owned arrays (forecast array and the array it was built from, "
-        "observed array / catalog rows, injected numbers, weights) byte-identical after every call. A case is non-trivial when a draw "
+        "observed array / catalog rows, injected numbers, weights) byte-identical after every call; round 7: (h) forecast and catalog "
+        "replaced by copy.copy / copy.deepcopy / a pickle image before the public test, (i) a rejected call (random_numbers of the "
+        "wrong width) on the same objects before the judged call, (j) observed "
+        "catalogs of a user subclass whose accessors present the events in time order, (k) numpy.errstate(divide/invalid='raise') "
+        "around the judged call where the unchanged code computes no log(0) (all rates >= 1e-10, >= 1 event, float64). "
+        "A case is non-trivial when a draw "
         "sits on or next to a cumulative boundary, a zero-rate bin exists, or a simulated statistic lies within 1e-4 "
         "relative of the observed one; distinct by (kind, rates, draws)")
 
@@ -1075,6 +1083,9 @@ class _SessionRun:
 
 
 # ----------------------------------------------------------------------------- public tests
+COPY_UNSUPPORTED = set()
+
+
 def build_public(case):
     from csep.core.regions import CartesianGrid2D
     from csep.core.forecasts import GriddedForecast
@@ -1100,6 +1111,43 @@ def build_public(case):
         cat = UCERF3Catalog(data=a, region=region, name="c")
     else:
         cat = CSEPCatalog(data=ev, region=region, name="c")
+    if case.get("cat_class") == "accessor-order":
+        # (j) a USER SUBCLASS of CSEPCatalog whose documented accessors present the events in TIME order, not in storage order
+        rows = list(ev)
+        rot = len(rows) // 2
+        rows = rows[rot:] + rows[:rot]                         # storage order differs from time order
+
+        class TimeOrderCatalog(CSEPCatalog):
+            def _order(self):
+                return numpy.argsort(self.catalog["origin_time"], kind="stable")
+
+            def get_longitudes(self):
+                return self.catalog["longitude"][self._order()]
+
+            def get_latitudes(self):
+                return self.catalog["latitude"][self._order()]
+
+            def get_magnitudes(self):
+                return self.catalog["magnitude"][self._order()]
+
+            def get_epoch_times(self):
+                return self.catalog["origin_time"][self._order()]
+        cat = TimeOrderCatalog(data=rows, region=region, name="c")
+    # (h) COPIES BEFORE USE: the objects handed to the test are images of the ones built here
+    form = case.get("copy_form")
+    if form:
+        import copy
+        import pickle
+        try:
+            if form == "copy":
+                fore, cat = copy.copy(fore), copy.copy(cat)
+            elif form == "deepcopy":
+                fore, cat = copy.deepcopy(fore), copy.deepcopy(cat)
+            elif form == "pickle" and case.get("cat_class") in (None, "UCERF3Catalog"):
+                fore, cat = pickle.loads(pickle.dumps(fore)), pickle.loads(pickle.dumps(cat))     # (local classes do not pickle)
+        except Exception as e:
+            COPY_UNSUPPORTED.add(f"{form}:{type(e).__name__}")
+        rates = numpy.asarray(fore._data) if hasattr(fore, "_data") and form == "copy" else rates
     fore.c06_source_array = rates             # the caller's own array the forecast was built from
     return fore, cat
 
@@ -1279,16 +1327,35 @@ def do_public(run, drv, pending, case):
     kw = {}
     if case.get("verbose"):
         kw["verbose"] = True          # the progress-printing branch (every 100 simulations)
+    if case.get("bad_call_first") and expect_n >= 1:
+        # (i) STATE AFTER A CAUGHT EXCEPTION: the same test on the same objects with random_numbers of the wrong width is rejected
+        # (too few numbers for the prescribed count); the judged call that follows must behave like a first call
+        try:
+            with capped_uniform(), contextlib.redirect_stdout(io.StringIO()):
+                fn(fore, cat, num_simulations=2, seed=seed_arg(case), random_numbers=numpy.full((2, expect_n + 1), 0.5))
+            run.count("bad-call-first:accepted")
+        except StreamExhausted:
+            run.count("bad-call-first:loop")
+        except Exception as e:
+            run.count(f"bad-call-first:raised-{type(e).__name__}")
+    robust = all(v >= 1e-10 for v in rates) and expect_n >= 1 and float(numpy.sum(Or)) > 0 and not PRECISION["single"]
+    use_err = bool(case.get("errstate")) and robust
+    if use_err:
+        run.count("errstate-divide-invalid-raise")
     owned_names = ["array the forecast was built from", "forecast data", "catalog rows", "injected random numbers"]
     owned = snap(fore.c06_source_array, fore.data, cat.catalog, R)
     if case.get("call_form") == "positional":
         run.count("public-call-positional")
     if case.get("cat_class"):
         run.count(f"observed-catalog-class-{case['cat_class']}")
+    if case.get("copy_form"):
+        run.count(f"copy-before-use:{case['copy_form']}")
     with capture(mod) as rec:
         try:
             numpy.random.seed(case.get("ambient", 12345))
-            with capped_uniform(), contextlib.redirect_stdout(io.StringIO()):
+            # (k) GLOBAL NUMERIC STATE: divide / invalid raise (only for inputs on which the unchanged tree computes no log(0))
+            with capped_uniform(), contextlib.redirect_stdout(io.StringIO()), \
+                    (numpy.errstate(divide="raise", invalid="raise") if use_err else contextlib.nullcontext()):
                 res = call_form(fn, (fore, cat), dict(num_simulations=nsim, seed=seed_arg(case), random_numbers=R, **kw),
                                 case.get("call_form"))
         except StreamExhausted as e:
@@ -1764,6 +1831,8 @@ def gen_public_case(rng, test=None, seeded=False):
     case = dict(kind="public", test=test, nx=nx, ny=ny, nm=nm, rates=hx(rates), events=events, nsim=nsim, style=style)
     if lowdt:
         case["rdtype"] = lowdt
+    if rng.random() < 0.2 and len(events) >= 2:
+        case["cat_class"] = "accessor-order"
     fore, cat = build_public(case)
     Fr, Or = public_inputs(case, fore, cat)
     masked = module != "poisson"
@@ -1830,7 +1899,13 @@ def gen_public_case(rng, test=None, seeded=False):
             case["history"] = hist
     case["call_form"] = rng.choice(["keyword", "keyword", "positional"])
     case["repeat"] = rng.random() < 0.3
-    if rng.random() < 0.25:
+    if rng.random() < 0.3:
+        case["copy_form"] = rng.choice(["copy", "deepcopy", "pickle"])          # (h)
+    if rng.random() < 0.25 and case.get("rows") is None and not case.get("history"):
+        case["bad_call_first"] = True                                            # (i)
+    if rng.random() < 0.3:
+        case["errstate"] = True                                                  # (k), applied only where the unchanged tree is robust
+    if rng.random() < 0.25 and not case.get("cat_class"):
         case["cat_class"] = "UCERF3Catalog"
     if case.get("seed") is not None:
         case["seed_form"] = pick_seed_form(rng)
@@ -2247,6 +2322,8 @@ def run(run, rng, tier):
             ks.append(result_key(mods["poisson"].conditional_likelihood_test(fore, cat, num_simulations=5, seed=None)))
         sens += ks[0] != ks[1]
     run.extra["unseeded_runs_differing_of_5"] = sens
+    if COPY_UNSUPPORTED:
+        run.extra["copy_forms_unsupported_by_the_tree"] = sorted(COPY_UNSUPPORTED)
     if HELPER_MISSING:
         run.extra["helpers_missing"] = sorted(HELPER_MISSING)
         run.assumptions.append("private helpers not found (or re-shaped) on the tree under test: " + ", ".join(sorted(HELPER_MISSING)) +
